@@ -438,7 +438,10 @@ def worlds(draw, ninst=3, hostile_names=True, split_paths=False, foreign_ids=Fal
         if draw(st.integers(0, 2)) == 0:
             # the same reference entered once per level of a deeply nested instance (legitimate recursion, no cycle)
             deep = draw(inst_scalar)
-            for _ in range(66):
+            body_refs = impl.cj(dict((k_, v_) for k_, v_ in root.items() if k_ != "definitions")).count('"$ref"')
+            # with a single route back into the root the work is linear in the depth; with several it doubles per
+            # level (for the implementation and for the oracle alike), so those get a depth that stays affordable
+            for _ in range(66 if body_refs == 1 else 12):
                 deep = {"k": deep}
             xs.append(deep)
             classes.append("deep-recursion")
